@@ -372,7 +372,7 @@ func coqMCase(c MCase) string {
 	return "(" + List(ops) + ",\n   " + List(outs) + ")"
 }
 
-const hdrMat = "From Coq Require Import ZArith List Bool. Import ListNotations.\nFrom ADV Require Import C11.Model C11.ModelMat C11.CorrMat.\nOpen Scope Z_scope.\n"
+const hdrMat = "From Coq Require Import ZArith List Bool. Import ListNotations.\nFrom ADV Require Import C11.Model C11.ModelMat C11.CorrMat C11.DenseMat C11.CorrMat2.\nOpen Scope Z_scope.\n"
 
 const ruleMat = "random histories (<= 30 ops, <= 4 whole sparse matrices of dims 0..5 x 0..5 incl. 0xn, nx0, 1xn, nx1, non-square; values in -8..8 kept below 100 in absolute value; element type drawn from all nine sparse matrix types, float64/int/real64 get half) over NewSparseMatrix(incl. duplicate and zero-valued positions)/At/SetAt(incl. zeros)/ConstAt/Set(sparse incl. itself and its own T()|dense)/Reset/SetIdentity/Swap/SwapRows/SwapColumns/T/Tip/Clone/ConstIterator(full|partial)/Map/MapSet/Reduce/Dims/Row/Col/Diag; 1 in 5 histories also draws malformed ops (out-of-range indices, dimension mismatch in Set, SwapRows/SwapColumns/Diag on non-square, constructor with out-of-range position or unequal slice lengths); a case is non-trivial iff it contains >= 6 mutating ops, >= 1 Set, >= 1 re-keying op (Swap/SwapRows/SwapColumns/T/Tip) and some matrix held a stored zero at some step; distinct = distinct (type, op list)"
 
@@ -1227,7 +1227,7 @@ func matMain(o Opts) {
 		}
 		c := rp.Case
 		c.Outs = mexecute(c)
-		w := NewCaseWriter(o.Out, "replay_mat", hdrMat, "mism_mat", 1000)
+		w := NewCaseWriter(o.Out, "replay_mat", hdrMat, "mism_mat2", 1000)
 		w.Type = "mcase"
 		w.Add(coqMCase(c), c, "replay", true)
 		w.Flush()
@@ -1238,7 +1238,7 @@ func matMain(o Opts) {
 		corpus = o.Extra[4:]
 	}
 	per := 24
-	w := NewCaseWriter(o.Out, "mat", hdrMat, "mism_mat", per)
+	w := NewCaseWriter(o.Out, "mat", hdrMat, "mism_mat2", per)
 	w.Type = "mcase"
 	w.Rule = ruleMat
 	for _, c := range readMatCorpus(corpus) {
